@@ -33,6 +33,41 @@ CLAIMED = {
    tech="TLA+ spec + TLC exhaustive model checking + trace validation with operations injected into the reload window"),
 }
 
+IPAM_NOTE = ("Trusted: the harness-owned API objects and store (API-server semantics), the gated scheduler (pod/deployment locks replaced through a verif hook), "
+             "the projection through ByPrefix(\"\"), TLC. Assumes: only the pod informer lags (in-order events), workload/pool listers fresh, scheduler binds only "
+             "on the latest filter result of that pod uid, single clean faults. Model constants are small (1-2 pod names x 2-3 incarnations, 2-3 IPs, <=2 live operations); "
+             "real-code traces use up to 4 pod names, 6 IPs, 3 live operations.")
+def ipam(text):
+    return dict(cat="model_checking", ref="DESIGN.md 6", note=IPAM_NOTE,
+                tech="TLA+ spec (one action per code segment) + TLC exhaustive model checking + attack schedules from weakened specs replayed on the real code + trace validation of gated-scheduler executions",
+                text=text)
+CLAIMED.update({
+ "C01": ipam("GalaxyIPAM models filter/bind/unbind/resync/API release/pool update/reload/pod-ip sync as one action per code segment over pods with incarnations, a lagging pod informer, "
+             "release events and keyed locks; TLC checks LiveAnnotationsDisjoint and LiveKeepsIP exhaustively on bounded scenarios. The real plugin runs under a deterministic scheduler that parks every "
+             "operation at each IPAM/API/lister/cloud/lock call; TLC-generated attack schedules (counterexamples of the model with one guard dropped) and seeded random schedules are executed on the real code, "
+             "every recorded step must be a step of the specification, and LiveAnnotationsDisjoint / BoundIPIsKeyedToPod are evaluated on every observed state."),
+ "C02": ipam("StickyM (no fresh allocation in bind while the key still holds an IP) is model-checked; on real-code traces StickyBind and ReserveBeforeFresh (a deployment/pool replacement takes a reserved IP of its app that was "
+             "visible at its filter and is still reserved and routable) are evaluated at every allocation made by a bind, over scenarios with reserving policies, several node subnets, scaling and reschedules."),
+ "C03": ipam("ReleaseJustifiedM is model-checked (only the API releases never/pool IPs, nothing held by a live pod is released, immutable statefulset IPs only when the app is gone or scaled below the pod); on real-code traces "
+             "ReleaseJustified is evaluated on every step that frees an IP and NoLeakAtQuiescence after the quiescence suffix (all events delivered and handled, one resync pass) that ends every trace."),
+ "C04": ipam("LiveKeepsIP and NoUnassignWhileLiveM are model-checked with incarnations, informer lag, duplicated/late release events, resync and API release; attack schedules for the guards unbindUid, bindStaleLister, resyncReread, "
+             "apiDoubleCheck and the per-operation pod locks are replayed on the real code on every run; LiveKeepsIP / NoUnassignWhileLive are evaluated on every observed step."),
+ "C07": ipam("PoolCapM is model-checked on a sized pool shared by two deployments with concurrent filters, binds and unbinds; on real-code traces PoolCap bounds every growth of the pool's IP count by the size the acting operation read, "
+             "with concurrent filters, pool create/update with pre-allocation, and the attack schedules for bindPoolSize and the deployment/pool lock."),
+ "C10": ipam("The provider's view (ip -> node) is a model variable updated by AssignIP/UnAssignIP; CloudSingleNodeM, LiveAssignedToOwnNode, UnassignBeforeHandoverM are model-checked; on real-code traces with a recording, failable provider "
+             "the same predicates are evaluated on every provider call, binding and key change."),
+ "C18": dict(cat="exploration", ref="DESIGN.md 6 C18",
+   text="Narrow claim. Words.tla: TLC checks termination and exactness of the address-walking loop and the adjacency test for all W-bit words; every FipConf vector is run through the real ConfigurePool at the top of the IPv4 space under a "
+        "watchdog; every operation of the IPAM-family traces runs under the scheduler watchdog with panic capture. Byte-level parser robustness is not decided by this technique.",
+   note="Not covered: arbitrary byte strings at the parsing surfaces (a fuzzer's job), the galaxy daemon's typed surfaces beyond what the C12 driver exercises.",
+   tech="TLA+ spec of the W-bit loops checked by TLC (liveness) + watchdog/panic observation of real-code executions"),
+ "C20": dict(cat="model_checking", ref="DESIGN.md 6 C20",
+   text="FipConf.tla defines validity, member set and size of a pool over a W-bit address space in the integers; TLC enumerates every pool with <= 2 (thorough: 2 over 16 addresses) ranges, checks the laws on the specification and emits one vector per pool; "
+        "every vector is checked against the real decoder, Size, Contains, enumeration, marshal round trip and InsertIP/RemoveIP at three embeddings including the top of the IPv4 space.",
+   note="Bounded exhaustive over the abstract space; the embedding is trusted. Malformed JSON other than reversed ranges is not enumerated.",
+   tech="TLA+ spec evaluated exhaustively by TLC to produce expected values + vector replay into the real code"),
+})
+
 NA = {
  "C19": "data races are below the granularity of an action-level TLA+ specification; deciding them needs a race detector / lock-set analysis, i.e. another technique (DESIGN.md section 1)",
 }
